@@ -47,6 +47,21 @@ Definition c_create (kek dek r1 : N) : cstate * N :=
 Definition c_save (c : cstate) (r : N) (doc : term) : term * N :=
   (wrapper (Pub 1) (c_dekraw c) (Enc (c_dek c) adDB r doc), 0).
 
+(* the AEAD decryption primitive (ideal): succeeds only under the ciphertext's own key and
+   associated data *)
+Definition dec (k ad : N) (t : term) : option term :=
+  match t with
+  | Enc k' ad' _ m => if (N.eqb k' k && N.eqb ad' ad)%bool then Some m else None
+  | _ => None
+  end.
+
+(* the fields of a wrapper *)
+Definition wrapper_fields (f : term) : option (term * term * term) :=
+  match f with
+  | Tup [Tup [Pub 10; ver]; Tup [Pub 11; Code dekf]; Tup [Pub 12; Code dbf]] => Some (ver, dekf, dbf)
+  | _ => None
+  end.
+
 (* openOrCreateKV on an existing file *)
 Definition open (kek : N) (f : term) : option term :=
   match f with
